@@ -15,7 +15,7 @@ INFO = {
                     'any of 301/302/303/307/308 counts as a redirect'],
 }
 
-SPECIAL = ['v', 'a?b', 'a#b', '100%', '%41', 'a b', 'a;b', 'a&b=c', 'é', 'a+b', '%2F', '?', '#', '%', 'x%zz', '中', "a'b", 'a"b', '<s>', '..', '.', '~u', 'a:b', 'Talk:Main', 'urn:isbn:1', 'x:1', '@', 'q?x=1#f']
+SPECIAL = ['v', 'a?b', 'a#b', '100%', '%41', 'a b', 'a;b', 'a&b=c', 'é', 'a+b', '%2F', '?', '#', '%', 'x%zz', '中', "a'b", 'a"b', '<s>', '..', '.', '~u', 'a:b', 'a\nb', 'v\n', '\n', 'Talk:Main', 'urn:isbn:1', 'x:1', '@', 'q?x=1#f']
 QUERIES = ['', 'a=1', 'a=1&b=%20x', 'q=%C3%A9', '%FF=1', 'x=a+b', 'a=b?c', 'k=%00', 'next=/x//y/', 'a=%2F%2F', 'flag', '&&', 'a=1;b=2', "q='\"", 'u=http://h/p?x=1']
 RAWQ = ['q=\xe9', '\xff\xfe', 'a=\xc3\xa9', 'n=\xc3']          # raw non-ASCII bytes (latin-1 view), labelled class
 ROUTES = {  # kind -> (pattern elements without trailing slash, binding names)
